@@ -633,7 +633,16 @@ SPEC = Spec(
         "fields only and the hash cache attribute is not a field; R04-EXHAUSTIVE "
         "checks every kind has a handler and __eq__ only delegates; R04-MEMO-KEY: "
         "the memo of pairwise comparisons is keyed on both operands; "
-        "R04-HASH-IDENTITY: a kind hashed by identity is compared by identity."),
+        "R04-HASH-IDENTITY: a kind hashed by identity is compared by identity. "
+        "R04-PAIRING also requires every handler to compare the two operands by == "
+        "or the memoised recursion, never by a semantic predicate "
+        "(are_shapes_equal, ...), because the hash is structural. R04-STATE: the "
+        "comparer and the node classes keep no state that outlives a call (mutable "
+        "default arguments, class-level or module-level containers that are "
+        "mutated): an id()-keyed memo that survives its objects answers for "
+        "others (canary fixture). R04-NAN: the test that routes NaN scalars to the "
+        "symbolic NaN node is a plain isnan of the scalar, not narrowed to some "
+        "scalar types."),
     not_decided=(
         "Transitivity through third-party __eq__ of leaf values (numpy dtypes, "
         "loopy translation units, pymbolic expressions); that every pair of "
